@@ -695,6 +695,38 @@ def long_drain_program(rng, n):
     return {"topo": topo, "ops": ops}
 
 
+def udp_back_to_back(path):
+    """Small-scope exhaustive set for the receive path: 0-2 datagrams queued at a socket, then at one instant two receive
+    operations of every pair of styles / buffer sizes issued back to back, optionally followed by cancel, close or a third
+    operation, later another datagram (C04: superseded operations; C08: what each handler reports)."""
+    import itertools, random
+    rng = random.Random(1)
+    topo = udp_topo(rng, nat="none", caps=False, small=True)
+    styles = [("recv", [1]), ("recv", [100]), ("recv_from", [3, 2]), ("wait", [50])]
+    n = 0
+    with open(path, "w") as f:
+        for queued in (0, 1, 2):
+            for (st1, b1), (st2, b2) in itertools.product(styles, repeat=2):
+                for third in ("none", "cancel", "close", "recv"):
+                    ops = [{"t": 0, "op": "bind", "s": "s1", "a": "A1", "p": 5001}, {"t": 0, "op": "bind", "s": "r1", "a": "B1", "p": 7000}]
+                    for k in range(queued):
+                        ops.append({"t": 10 + k, "op": "send", "s": "s1", "dst": ["B1", 7000], "bufs": [20 + 5 * k]})
+                    ops.append({"t": 5000, "op": "recv", "s": "r1", "style": st1, "bufs": b1})
+                    ops.append({"t": 5000, "op": "recv", "s": "r1", "style": st2, "bufs": b2})
+                    if third == "recv":
+                        ops.append({"t": 5000, "op": "recv", "s": "r1", "style": "recv_from", "bufs": [7]})
+                    elif third != "none":
+                        ops.append({"t": 5000, "op": third, "s": "r1"})
+                    if third == "close":
+                        ops += [{"t": 9000, "op": "open", "s": "r1"}, {"t": 9000, "op": "bind", "s": "r1", "a": "B1", "p": 7000}]
+                    ops.append({"t": 20000, "op": "send", "s": "s1", "dst": ["B1", 7000], "bufs": [33]})
+                    ops.append({"t": 40000, "op": "recv", "s": "r1", "style": "recv_from", "bufs": [64], "auto": True})
+                    ops.append({"t": 50000, "op": "send", "s": "s1", "dst": ["B1", 7000], "bufs": [12]})
+                    f.write(json.dumps({"topo": topo, "ops": ops}) + "\n")
+                    n += 1
+    return n
+
+
 def rand_udp_programs(seed, n, path):
     import random
     rng = random.Random(seed)
@@ -819,6 +851,10 @@ def udp_pipeline(ctx, owner, n_quick=2500, n_thorough=60000, mc=True):
     f2 = ctx.path("us_rand.ndjson")
     rand_udp_programs(ctx.seed, n_quick if q else n_thorough, f2)
     files.append(f2)
+    if owner in ("C08", "C04"):
+        f3 = ctx.path("us_b2b.ndjson")
+        udp_back_to_back(f3)
+        files.append(f3)
     for f in files:
         res, total, chunks = vlib.replay(ctx, "record-udp", f, keep=True, env={"VH_WALL_LIMIT": "900"})
         bad = [r for r in res if not r.get("ok")]
